@@ -148,6 +148,10 @@ func (g *gen) list(safe bool, depth, lvl int, linky bool) {
 			g.b.WriteString("<li>")
 		}
 		g.b.WriteString(g.text(safe, linky))
+		if g.r.Pct(8) {
+			// script / style / noscript as a direct child of the item: never content
+			g.b.WriteString(sim.Pick(g.r, []string{"<script>var li = \"SCRIPTMARK\";</script>", "<style>li{content:\"STYLEMARK\"}</style>", "<noscript>SCRIPTMARK fallback</noscript>"}))
+		}
 		if g.r.Pct(14) {
 			// a block element directly inside the item
 			switch g.r.Intn(4) {
@@ -341,6 +345,46 @@ func makePage(seed uint64, nodes int) *page { return makePageFrom(seed, nodes, 0
 func makePageFrom(seed uint64, nodes int, start int) *page {
 	g := &gen{r: sim.NewRand(seed), budget: nodes, n: start}
 	g.b.WriteString("<!DOCTYPE html><html><head><title>C19 page</title><style>body{}</style></head><body>")
+	if g.r.Pct(12) {
+		// the body's only structural child is one wrapper <div> / <main> (scripts and styles
+		// beside it do not count), possibly with a class, id or role of its own: a <header> /
+		// <footer> directly inside it is at the top level, and a wrapper named like navigation
+		// is itself a candidate in the stricter modes - which must still only narrow
+		tag := sim.Pick(g.r, []string{"div", "div", "main"})
+		attr, inner := "", true
+		switch g.r.Intn(4) {
+		case 0:
+			attr, inner = " "+sim.Pick(g.r, []string{"class", "id"})+"=\""+sim.Pick(g.r, exclVocab)+"\"", false
+		case 1:
+			attr, inner = " class=\"site has-"+sim.Pick(g.r, exclVocab)+" x\"", false
+		case 2:
+			attr, inner = " class=\""+sim.Pick(g.r, nearVocab)+"\"", false
+		}
+		if g.r.Bool() {
+			g.b.WriteString("<script>var z = 0;</script>")
+		}
+		g.b.WriteString("<" + tag + attr + ">")
+		first := len(g.leaves)
+		if g.r.Bool() {
+			g.b.WriteString("<header>")
+			g.content(1, false, 2, false)
+			g.b.WriteString("</header>")
+		}
+		// depth 2: a <header> / <footer> further inside is judged neither way
+		for g.budget > 0 {
+			g.content(3, false, 2, false)
+		}
+		_ = inner
+		if g.r.Bool() {
+			g.b.WriteString("<footer>")
+			g.content(1, false, 2, false)
+			g.b.WriteString("</footer>")
+		}
+		g.b.WriteString("</" + tag + ">")
+		g.demoteIfLinky(first)
+		g.b.WriteString("<style>.w{}</style></body></html>")
+		return &page{html: g.b.String(), leaves: g.leaves}
+	}
 	if g.r.Pct(20) {
 		// a body made of several plain <div>s only (no single wrapper): a <header> or <footer>
 		// directly inside one of them is not at the top level, so it is ordinary content
